@@ -131,7 +131,7 @@ CLAIMED = {
   technique="Lean 4 proof (finite table by decide + refinement corollary) + exhaustive compile-and-run over configurations",
   design="5 C12"),
  "C13": dict(
-  text="Lean 4 theorems (FormakVerif.C13: stores_by_name, rejects_unknown, accepts_known, shape, covariance_by_name, decl_order, rename_invariant) "
+  text="Lean 4 theorems (FormakVerif.C13: stores_by_name, rejects_unknown, accepts_known, shape, shape_nd, same_count_other_shape_refused, shape_nd_stores, cov_shape_nd, covariance_by_name, decl_order, rename_invariant) "
        "prove for every name list and keyword set that construction stores each value under its own name, refuses unknown names and wrong shapes, "
        "defaults the rest, and - via the by-name refinement of C01 - that every injective renaming of a model's symbols leaves each named output "
        "unchanged although the layout is permuted. Tie: constructor round-trips vs the Lean bind functions; metamorphic renamed / re-declared twins "
